@@ -19,7 +19,20 @@ import (
 const serverPkgPath = "github.com/basecamp/kamal-proxy/internal/server"
 const cmdPkgPath = "github.com/basecamp/kamal-proxy/internal/cmd"
 
+// droppedHarnessFiles names the harness files left out of the last load (see LoadProgramFor).
+var droppedHarnessFiles []string
+
 func LoadProgram(repo, harnessDir string) (*Program, error) {
+	return LoadProgramFor(repo, harnessDir, nil)
+}
+
+// LoadProgramFor loads the repository with every harness file overlaid. When that does not type-check and
+// `needed` (the harness functions of the check being run) is given, the per-property harness files (cNN_*.go) in
+// which the errors lie are left out — provided none of them defines a needed harness or a stub directive that
+// applies to one — and the load is tried once more: a change that removes an identifier only *another* property's
+// harness names must not make this check inconclusive.
+func LoadProgramFor(repo, harnessDir string, needed []string) (*Program, error) {
+	droppedHarnessFiles = nil
 	overlay := map[string][]byte{}
 	for _, sub := range []string{"server", "cmd"} {
 		files, _ := filepath.Glob(filepath.Join(harnessDir, sub, "*.go"))
@@ -38,21 +51,51 @@ func LoadProgram(repo, harnessDir string) (*Program, error) {
 			overlay[filepath.Join(repo, "internal", sub, "zz_verif_"+filepath.Base(f))] = src
 		}
 	}
-	cfg := &packages.Config{Mode: packages.LoadAllSyntax, Dir: repo, Tests: false, Overlay: overlay,
-		Env: append(os.Environ(), "GOPROXY=off", "GOTOOLCHAIN=local", "CGO_ENABLED=0")}
-	pkgs, err := packages.Load(cfg, "./internal/server", "./internal/cmd")
-	if err != nil {
-		return nil, err
-	}
-	nerr := 0
-	packages.Visit(pkgs, nil, func(p *packages.Package) {
-		for _, e := range p.Errors {
-			fmt.Fprintln(os.Stderr, "LOAD-ERROR:", e)
-			nerr++
+	var pkgs []*packages.Package
+	for attempt := 0; ; attempt++ {
+		cfg := &packages.Config{Mode: packages.LoadAllSyntax, Dir: repo, Tests: false, Overlay: overlay,
+			Env: append(os.Environ(), "GOPROXY=off", "GOTOOLCHAIN=local", "CGO_ENABLED=0")}
+		var err error
+		pkgs, err = packages.Load(cfg, "./internal/server", "./internal/cmd")
+		if err != nil {
+			return nil, err
 		}
-	})
-	if nerr > 0 {
-		return nil, fmt.Errorf("%d load errors (the repository or a harness does not compile)", nerr)
+		nerr := 0
+		bad := map[string]bool{}
+		other := false
+		packages.Visit(pkgs, nil, func(p *packages.Package) {
+			for _, e := range p.Errors {
+				fmt.Fprintln(os.Stderr, "LOAD-ERROR:", e)
+				nerr++
+				file := e.Pos
+				if i := strings.Index(file, ".go:"); i >= 0 {
+					file = file[:i+3]
+				}
+				if _, ok := overlay[file]; ok && perPropertyHarnessFile(file) {
+					bad[file] = true
+				} else {
+					other = true
+				}
+			}
+		})
+		if nerr == 0 {
+			break
+		}
+		fail := fmt.Errorf("%d load errors (the repository or a harness does not compile)", nerr)
+		if attempt > 0 || needed == nil || other || len(bad) == 0 {
+			return nil, fail
+		}
+		for file := range bad {
+			if harnessFileNeeded(string(overlay[file]), needed) {
+				return nil, fail
+			}
+		}
+		for file := range bad {
+			delete(overlay, file)
+			droppedHarnessFiles = append(droppedHarnessFiles, strings.TrimPrefix(filepath.Base(file), "zz_verif_"))
+		}
+		sort.Strings(droppedHarnessFiles)
+		fmt.Fprintln(os.Stderr, "LOAD: retrying without harness files of other properties that do not compile:", droppedHarnessFiles)
 	}
 	prog, _ := ssautil.AllPackages(pkgs, ssa.InstantiateGenerics)
 	prog.Build()
@@ -112,6 +155,38 @@ func LoadProgram(repo, harnessDir string) (*Program, error) {
 		}
 	}
 	return P, nil
+}
+
+// perPropertyHarnessFile: zz_verif_cNN_*.go (support, stub and model files are never dropped).
+func perPropertyHarnessFile(path string) bool {
+	b := strings.TrimPrefix(filepath.Base(path), "zz_verif_")
+	return len(b) > 4 && b[0] == 'c' && b[1] >= '0' && b[1] <= '9' && b[2] >= '0' && b[2] <= '9' && b[3] == '_'
+}
+
+// harnessFileNeeded: the file defines one of the needed harness functions, or a stub directive that applies to one.
+func harnessFileNeeded(src string, needed []string) bool {
+	for _, line := range strings.Split(src, "\n") {
+		t := strings.TrimSpace(line)
+		for _, h := range needed {
+			if strings.HasPrefix(t, "func "+h+"(") {
+				return true
+			}
+		}
+		if strings.HasPrefix(t, "//verif:stub ") {
+			i := strings.Index(t, " harness=")
+			if i < 0 {
+				return true // applies to every harness
+			}
+			for _, h := range strings.Split(strings.TrimSpace(t[i+len(" harness="):]), ",") {
+				for _, n := range needed {
+					if h == n {
+						return true
+					}
+				}
+			}
+		}
+	}
+	return false
 }
 
 type HarnessResult struct {
